@@ -57,22 +57,22 @@ type Phase struct {
 
 // Input is one replayable run.
 type Input struct {
-	Kind   string `json:"kind"` // corpus | sched | stress | crash
-	Name   string `json:"name"`
-	Slot   int    `json:"slot"`
-	Init   []int  `json:"init"` // keys inserted (in this order) by one set-up transaction
+	Kind   string  `json:"kind"` // corpus | sched | stress | crash
+	Name   string  `json:"name"`
+	Slot   int     `json:"slot"`
+	Init   []int   `json:"init"` // keys inserted (in this order) by one set-up transaction
 	Phases []Phase `json:"phases"`
-	Expect string `json:"expect,omitempty"` // corpus: the oracle signature this scenario must produce ("" = none)
-	Seed   uint64 `json:"seed,omitempty"`
+	Expect string  `json:"expect,omitempty"` // corpus: the oracle signature this scenario must produce ("" = none)
+	Seed   uint64  `json:"seed,omitempty"`
 }
 
 // ---------------------------------------------------------------- recorded data
 
 // Snap is the classification of a writer's nodes (VerifClassify), canonicalised, taken when a node-key lock call returned.
 type Snap struct {
-	Seq     int         `json:"seq"` // the event it belongs to
-	Updated [][2]int    `json:"updated"` // lid, version read
-	Removed [][2]int    `json:"removed"`
+	Seq     int      `json:"seq"`     // the event it belongs to
+	Updated [][2]int `json:"updated"` // lid, version read
+	Removed [][2]int `json:"removed"`
 }
 
 // EnvMark is something the scheduler did between calls.
@@ -87,7 +87,7 @@ type PhaseOut struct {
 	Events   []*sopx.Event     `json:"events"`
 	Snaps    []Snap            `json:"snaps"`
 	Marks    []EnvMark         `json:"marks"`
-	Order    []int             `json:"order"` // completion order: seq >= 0 an event that returned, -(k+1) = Marks[k]
+	Order    []int             `json:"order"`   // completion order: seq >= 0 an event that returned, -(k+1) = Marks[k]
 	Results  map[string]string `json:"results"` // label -> "" (committed) | error text | "crashed" | "unfinished"
 	CanonIDs []string          `json:"canon_ids"`
 	Crashed  bool              `json:"crashed,omitempty"`
@@ -116,13 +116,15 @@ type wstate struct {
 }
 
 type runner struct {
-	env    *sopx.Env
-	ws     map[string]*wstate
-	freeCh chan struct{}
-	once   sync.Once
-	mu     sync.Mutex
-	out    *PhaseOut
-	child  bool
+	env     *sopx.Env
+	ws      map[string]*wstate
+	freeCh  chan struct{}
+	callMu  sync.Mutex   // see serialize
+	held    map[int]bool // events that hold callMu
+	once    sync.Once
+	mu      sync.Mutex
+	out     *PhaseOut
+	child   bool
 	partial string
 }
 
@@ -176,25 +178,43 @@ func nodeKeys(names []string) bool {
 	return true
 }
 
+// serialize: while the goroutines race freely, every recorded storage call runs under one mutex from its start to
+// the moment it is appended to the order (after): the recorded order is then the order of the calls' effects, which
+// is what the trace checker needs; the interleaving BETWEEN calls stays arbitrary. (Gated phases need nothing: one
+// writer runs at a time.) The inner registry/blob store use the undecorated cache, so recorded calls never nest.
+func (r *runner) serialize(ev *sopx.Event) {
+	r.callMu.Lock()
+	r.mu.Lock()
+	r.held[ev.Seq] = true
+	r.mu.Unlock()
+}
+
 func (r *runner) before(ev *sopx.Event) sopx.Action {
 	ws := r.ws[ev.Txn]
-	if ws == nil || !ws.inCommit || r.isFree() {
+	if ws == nil || !ws.inCommit {
+		return sopx.Proceed
+	}
+	if r.isFree() {
+		r.serialize(ev)
 		return sopx.Proceed
 	}
 	ws.gateMu.Lock()
 	defer ws.gateMu.Unlock()
 	if r.isFree() {
+		r.serialize(ev)
 		return sopx.Proceed
 	}
 	t := &ticket{ev: ev, release: make(chan struct{})}
 	select {
 	case ws.parked <- t:
 	case <-r.freeCh:
+		r.serialize(ev)
 		return sopx.Proceed
 	}
 	select {
 	case <-t.release:
 	case <-r.freeCh:
+		r.serialize(ev)
 	}
 	return sopx.Proceed
 }
@@ -202,7 +222,12 @@ func (r *runner) before(ev *sopx.Event) sopx.Action {
 func (r *runner) after(ev *sopx.Event) {
 	r.mu.Lock()
 	r.out.Order = append(r.out.Order, ev.Seq)
+	held := r.held[ev.Seq]
+	delete(r.held, ev.Seq)
 	r.mu.Unlock()
+	if held {
+		defer r.callMu.Unlock()
+	}
 	ws := r.ws[ev.Txn]
 	if ws == nil || ws.two == nil || ev.Iface != "l2" || (ev.Method != "Lock" && ev.Method != "DualLock") || !nodeKeys(ev.Names) {
 		return
@@ -351,7 +376,7 @@ func runPhase(folder string, ph *Phase, canon []string, clockMin int, partial st
 	for _, k := range []string{"l2.SetStruct", "l2.GetStruct", "l2.GetStructEx", "l2.Delete", "sr", "blob.GetOne", "reg.Replicate"} {
 		e.Rec.Mute[k] = true
 	}
-	r := &runner{env: e, ws: map[string]*wstate{}, freeCh: make(chan struct{}), out: out, child: ph.Child, partial: partial}
+	r := &runner{env: e, ws: map[string]*wstate{}, held: map[int]bool{}, freeCh: make(chan struct{}), out: out, child: ph.Child, partial: partial}
 	if ph.Free {
 		r.once.Do(func() { close(r.freeCh) })
 	}
